@@ -118,6 +118,7 @@ type wireViolation struct {
 	Sig    string      `json:"sig"`
 	Detail string      `json:"detail"`
 	Render interface{} `json:"render,omitempty"`
+	Own    bool        `json:"own,omitempty"`
 }
 
 type wireStats struct {
@@ -227,6 +228,7 @@ func cmdWorker(args []string) {
 		st.SampleWant = 1
 	}
 	perSig := map[string]int{}
+	perSigOwn := map[string]int{}
 	var vcount int64
 	stoppedEarly := false
 	for i := *from + *w; i < runs; i += *W {
@@ -248,8 +250,11 @@ func cmdWorker(args []string) {
 		if v != nil {
 			vcount++
 			perSig[v.Sig]++
-			if perSig[v.Sig] <= 2 && len(perSig) <= 40 {
-				enc.Encode(wireViolation{"v", i, t.Vals, v.Class, v.Sig, v.Detail, v.Render})
+			if v.OwnHistory {
+				perSigOwn[v.Sig]++
+			}
+			if (perSig[v.Sig] <= 2 || (v.OwnHistory && perSigOwn[v.Sig] <= 3)) && len(perSig) <= 40 {
+				enc.Encode(wireViolation{"v", i, t.Vals, v.Class, v.Sig, v.Detail, v.Render, v.OwnHistory})
 			}
 			if vcount >= maxViolationsPerWorker {
 				// fail fast: a tree that violates the property in hundreds of runs has
@@ -674,6 +679,7 @@ func cmdRun(args []string) {
 	// violations: group by signature, earliest run first
 	sort.Slice(found, func(i, j int) bool { return found[i].I < found[j].I })
 	groups := map[string]*foundViolation{}
+	nOwn := map[string]int{}
 	var order []string
 	for _, v := range found {
 		g := groups[v.Sig]
@@ -681,7 +687,10 @@ func cmdRun(args []string) {
 			g = &foundViolation{wireViolation: v}
 			groups[v.Sig] = g
 			order = append(order, v.Sig)
-		} else if len(g.more) < 3 && v.Tape != nil {
+		} else if v.Tape != nil && v.Own && nOwn[v.Sig] < 12 {
+			nOwn[v.Sig]++
+			g.more = append([]wireViolation{v}, g.more...) // runs with their own history are tried first
+		} else if len(g.more) < 24 && v.Tape != nil {
 			g.more = append(g.more, v)
 		}
 		g.count++
@@ -730,32 +739,81 @@ func cmdRun(args []string) {
 			writeJSON(path, rf)
 		} else if g.Tape != nil {
 			cands := append([]wireViolation{g.wireViolation}, g.more...)
+			if !g.Own && len(g.more) > 0 && g.more[0].Own {
+				cands = append(append([]wireViolation{}, g.more...), g.wireViolation)
+			}
+			if len(cands) > 1 {
+				// screening: one plain replay of each candidate in a fresh process.
+				// On a tree that carries state from call to call (free lists, caches)
+				// most violating runs depend on what the worker process did before
+				// them; the ones to minimise are those that contain their own history.
+				for ci, cv := range cands {
+					rf.RunIndex, rf.Detail, rf.Tape, rf.OriginalLen, rf.Render = cv.I, cv.Detail, cv.Tape, len(cv.Tape), cv.Render
+					writeJSON(path, rf)
+					if rr := runWorker([]string{"replay", "-file", path}, nil, 10*time.Minute); rr.exitCode == 1 {
+						if ci > 0 {
+							fmt.Printf("note: %s/%s: %d earlier candidate run(s) did not replay in a fresh process, run %d does\n", *propID, sig, ci, cv.I)
+						}
+						cands = append([]wireViolation{cv}, append(append([]wireViolation{}, cands[:ci]...), cands[ci+1:]...)...)
+						break
+					}
+				}
+				if len(cands) > 4 {
+					cands = cands[:4]
+				}
+			}
 			ok := 0
 			const attempts = 5
 			for ci, cv := range cands {
 				rf.RunIndex, rf.Detail, rf.Tape, rf.OriginalLen, rf.Render = cv.I, cv.Detail, cv.Tape, len(cv.Tape), cv.Render
 				writeJSON(path, rf)
-				sargs := []string{"shrink", "-file", path, "-out", path + ".min"}
-				if m := hooks.ShrinkMax[*propID]; m > 0 {
-					sargs = append(sargs, "-max", fmt.Sprint(m), "-budget", "60s")
-				}
-				shr := runWorker(sargs, nil, 10*time.Minute)
-				if b, err := os.ReadFile(path + ".min"); err == nil {
-					var m ReplayFile
-					if json.Unmarshal(b, &m) == nil && m.Tape != nil {
-						m.ReplayCmd, m.OccurredRuns, m.OriginalLen = rf.ReplayCmd, rf.OccurredRuns, rf.OriginalLen
-						rf = m
+				orig := rf
+				minimise := func(fresh bool) {
+					sargs := []string{"shrink", "-file", path, "-out", path + ".min"}
+					if m := hooks.ShrinkMax[*propID]; m > 0 {
+						sargs = append(sargs, "-max", fmt.Sprint(m), "-budget", "60s")
+					} else if fresh {
+						sargs = append(sargs, "-fresh", "-max", "200", "-budget", "150s")
 					}
-				} else if shr.stderr != "" {
-					fmt.Printf("note: minimisation did not finish: %s\n", trimTo(shr.stderr, 300))
+					shr := runWorker(sargs, nil, 10*time.Minute)
+					if b, err := os.ReadFile(path + ".min"); err == nil {
+						var m ReplayFile
+						if json.Unmarshal(b, &m) == nil && m.Tape != nil {
+							m.ReplayCmd, m.OccurredRuns, m.OriginalLen = rf.ReplayCmd, rf.OccurredRuns, rf.OriginalLen
+							rf = m
+						}
+					} else if shr.stderr != "" {
+						fmt.Printf("note: minimisation did not finish: %s\n", trimTo(shr.stderr, 300))
+					}
+					os.Remove(path + ".min")
+					writeJSON(path, rf)
+					ok = 0
+					for a := 0; a < attempts; a++ {
+						rr := runWorker([]string{"replay", "-file", path}, []string{fmt.Sprintf("GOMAXPROCS=%d", []int{1, 4, 16, 2, 8}[a])}, 10*time.Minute)
+						if rr.exitCode == 1 {
+							ok++
+						}
+					}
 				}
-				os.Remove(path + ".min")
-				writeJSON(path, rf)
-				ok = 0
-				for a := 0; a < attempts; a++ {
-					rr := runWorker([]string{"replay", "-file", path}, []string{fmt.Sprintf("GOMAXPROCS=%d", []int{1, 4, 16, 2, 8}[a])}, 10*time.Minute)
-					if rr.exitCode == 1 {
-						ok++
+				minimise(false)
+				if ok == 0 && hooks.ShrinkMax[*propID] == 0 {
+					// the minimised tape does not replay. If the recorded one does, the
+					// minimisation was misled: executions inside one process depend on
+					// each other when the tree carries state from call to call.
+					rf = orig
+					writeJSON(path, rf)
+					if rr := runWorker([]string{"replay", "-file", path}, nil, 10*time.Minute); rr.exitCode == 1 {
+						fmt.Printf("note: %s/%s of run %d: the minimised tape does not replay in a fresh process, the recorded one does (the tree carries state from call to call); minimising again with one process per candidate\n", *propID, sig, cv.I)
+						minimise(true)
+						if ok == 0 {
+							rf = orig
+							writeJSON(path, rf)
+							for a := 0; a < attempts; a++ {
+								if rr := runWorker([]string{"replay", "-file", path}, []string{fmt.Sprintf("GOMAXPROCS=%d", []int{1, 4, 16, 2, 8}[a])}, 10*time.Minute); rr.exitCode == 1 {
+									ok++
+								}
+							}
+						}
 					}
 				}
 				rf.Reproduced = fmt.Sprintf("%d/%d", ok, attempts)
@@ -770,7 +828,7 @@ func cmdRun(args []string) {
 				// nondeterminism or that of a defective tree (state carried from run to
 				// run inside the code under test) is decided below.
 				unreproduced = append(unreproduced, fmt.Sprintf("%s of run %d: %s", sig, g.I, trimTo(g.Detail, 300)))
-				os.Remove(path)
+				os.Rename(path, path+".unreproduced") // kept for diagnosis; not a replay file of a reported violation
 				continue
 			}
 		} else {
